@@ -264,7 +264,7 @@ PROG_SPECS = {
     "hhand": (["hhand.c"], ["-lm", "-lpthread"]),
     "hpf": (["hpf.c"], ["-lm"]),
     "hsort": (["hsort.c"], ["-lm"]),
-    "halloc": (["halloc.c"], ["-lm", "-Wl,--wrap=malloc", "-Wl,--wrap=calloc", "-Wl,--wrap=realloc", "-Wl,--wrap=free"]),
+    "halloc": (["halloc.c"], ["-lm", "-no-pie", "-Wl,--wrap=malloc", "-Wl,--wrap=calloc", "-Wl,--wrap=realloc", "-Wl,--wrap=free"]),
     "hstat": (["hstat.c"], ["-lm", "-ldl"]),
     "hnorm": (["hnorm.c"], ["-lm"]),
     "hmbs": (["hmbs.c"], ["-lm"]),
